@@ -137,15 +137,32 @@ def pool():
     return _pool
 
 
+_iso_pool = None
+
+
+def iso_pool():
+    """one fresh forked process per task: whatever the code under test leaves behind in a worker (class attributes, module
+    globals, caches) cannot reach the next task, so a violation is a function of its task alone and --replay can re-run it"""
+    global _iso_pool
+    if _iso_pool is None:
+        n = int(os.environ.get('VERIF_WORKERS', '0')) or min(16, os.cpu_count() or 1)
+        _iso_pool = mp.get_context('fork').Pool(n, maxtasksperchild=1)
+    return _iso_pool
+
+
 def close_pool():
-    global _pool
-    if _pool is not None:
-        _pool.close()
-        _pool.join()
-        _pool = None
+    global _pool, _iso_pool
+    for p in (_pool, _iso_pool):
+        if p is not None:
+            p.close()
+            p.join()
+    _pool = _iso_pool = None
 
 
 def pmap(fn, tasks, chunk=None):
+    if chunk == 1 and tasks:
+        # case-pool tasks (hundreds of cases each): isolated from one another
+        return iso_pool().map(fn, tasks, 1)
     if len(tasks) < 8 or os.environ.get('VERIF_WORKERS') == '1':
         return [fn(t) for t in tasks]
     p = pool()
